@@ -13,9 +13,38 @@ Definition endian_of (t : bytes) : endian := if lbeq t (B "B") then BE else LE.
 Definition err_tok (e : cerr) : bytes := match e with EDepth _ => B "ERR:D" | _ => B "ERR" end.
 Definition colon : bytes := B ":".
 
+(* encoded bytes as printed by `ser`: in full up to 1024 bytes, otherwise length, Adler-32, first 16 and last 48 bytes *)
+Fixpoint adler (l : bytes) (a c : N) : N :=
+  match l with
+  | [] => c * 65536 + a
+  | x :: r => let a' := (a + bn x) mod 65521 in adler r a' ((c + a') mod 65521)
+  end.
+Definition dot : bytes := B ".".
+Definition obs_bytes (b : bytes) : bytes :=
+  if len b <=? 1024 then hext b
+  else B "#" ++ dec_of_N (len b) ++ dot ++ dec_of_N (adler b 1 0) ++ dot ++ hex_of_bytes (takeN 16 b) ++ dot
+       ++ hex_of_bytes (dropN (len b - 48) b).
+
+(* hex token; segments separated by '.', a segment HEX*N stands for N copies *)
+Fixpoint repeat_bytes (n : nat) (b acc : bytes) : bytes :=
+  match n with O => acc | S k => repeat_bytes k b (b ++ acc) end.
+Definition ghex_seg (t : bytes) : option bytes :=
+  match split_on "*"%byte t with
+  | [h] => bytes_of_hex h
+  | [h; n] => match bytes_of_hex h, N_of_dec n with
+              | Some b, Some k => Some (repeat_bytes (N.to_nat k) b [])
+              | _, _ => None
+              end
+  | _ => None
+  end.
+Definition ghexs (t : bytes) : option bytes :=
+  if lbeq t (B "-") then Some []
+  else fold_right (fun seg acc => match ghex_seg seg, acc with Some b, Some r => Some (b ++ r) | _, _ => None end)
+                  (Some []) (split_on "."%byte t).
+
 Definition ser_obs (r : res cerr (bytes * list N)) (z : res cerr (N * N)) : bytes :=
   match r, z with
-  | Ok (b, fds), Ok (n, k) => B "OK:" ++ hext b ++ colon ++ dec_of_N n ++ colon ++ dec_of_N (N.of_nat (length fds)) ++ colon ++ dec_of_N k
+  | Ok (b, fds), Ok (n, k) => B "OK:" ++ obs_bytes b ++ colon ++ dec_of_N n ++ colon ++ dec_of_N (N.of_nat (length fds)) ++ colon ++ dec_of_N k
   | Panic _, _ | _, Panic _ => B "PANIC"
   | Err e, _ => err_tok e
   | _, Err e => err_tok e
@@ -33,7 +62,7 @@ Definition run_ser (e : endian) (pos : N) (mode : bytes) (ts : list bytes) : out
       let s := if gwf top && negb (gwithin_limits top) then B "ERR:D"
                else if gwf top then
                  let b := gv_marshal e pos top in
-                 B "OK:" ++ hext b ++ colon ++ dec_of_N (len b) ++ colon ++ dec_of_N (gnfds top) ++ colon ++ dec_of_N (gnfds top)
+                 B "OK:" ++ obs_bytes b ++ colon ++ dec_of_N (len b) ++ colon ++ dec_of_N (gnfds top) ++ colon ++ dec_of_N (gnfds top)
                else dash in
       {| o_model := m; o_spec := s; o_class := class_c05 e top |}
   end.
@@ -68,7 +97,7 @@ Definition panic_class {A} (r : res cerr A) : bytes :=
 Definition run_de (e : endian) (pos : N) (nf : N) (spec : bytes) (rest : list bytes) : outp :=
   match rest with
   | [m; h] =>
-      match hexs h with
+      match ghexs h with
       | None => bad_case
       | Some b =>
           if lbeq m (B "v") then
@@ -86,7 +115,7 @@ Definition run_de (e : endian) (pos : N) (nf : N) (spec : bytes) (rest : list by
       end
   | [m; g; h] =>
       if lbeq m (B "s") then
-        match sig_of_tok true g, hexs h with
+        match sig_of_tok true g, ghexs h with
         | Some gs, Some b => let r := gde_struct_top e pos gs b (seqN nf) in
                              {| o_model := de_obs e pos (fun v => v) r; o_spec := spec; o_class := panic_class r |}
         | None, Some _ => {| o_model := B "ERR"; o_spec := spec; o_class := dash |}   (* signature does not parse *)
